@@ -56,6 +56,7 @@ def obligations(tier):
     # typed Marshal/Unmarshal through the reflect environment (package json harnesses)
     for nd, rd in ((4, False), (4, True)) if q else ((3, False), (4, False), (4, True), (6, True)):
         L.append(ob("typed/err-alias/digits=%d/reader=%d" % (nd, rd), ".", "VerifC18ErrAlias", [nd, rd], covers=["error"], max_seconds=600))
+    L.append(ob("typed/scratch-pools", ".", "VerifC18ScratchPools", [], covers=["unrelated-call-failed", "unrelated-call-ok"]))
     for depth in ((1005,) if q else (1001, 1005, 1100)):
         L.append(ob("typed/deep-history/depth=%d" % depth, ".", "VerifC18DeepHistory", [depth], covers=["second"], max_seconds=900, step_limit=400000000))
     only = os.environ.get("C18_ONLY", "")
